@@ -212,12 +212,21 @@ type sys struct {
 }
 
 func poolOf(m *httpd.Mux) *vsync.Pool {
-	v := reflect.ValueOf(m).Elem().FieldByName("storePool")
-	if !v.IsValid() {
-		return nil
+	// the Mux's pool of Stores, whatever the field is called: the first field that is a Pool
+	mv := reflect.ValueOf(m).Elem()
+	for i := 0; i < mv.NumField(); i++ {
+		v := mv.Field(i)
+		if !v.CanAddr() {
+			continue
+		}
+		switch p := reflect.NewAt(v.Type(), unsafe.Pointer(v.UnsafeAddr())).Interface().(type) {
+		case *vsync.Pool:
+			return p
+		case **vsync.Pool:
+			return *p
+		}
 	}
-	p, _ := reflect.NewAt(v.Type(), unsafe.Pointer(v.UnsafeAddr())).Interface().(*vsync.Pool)
-	return p
+	return nil
 }
 
 func field(v reflect.Value, name string) reflect.Value {
